@@ -156,7 +156,7 @@ def unchangedB (old new : RolloutB) : Bool :=
   | _, _ => false
 
 def unchangedA (old new : RolloutA) : Bool :=
-  old.ref = new.ref && old.anno.toLower = new.anno.toLower &&
+  old.ref = new.ref && lower old.anno = lower new.anno &&
   match old.canary, new.canary with
   | some os, some nw => os.trs = nw.trs && os.steps.length = nw.steps.length
   | _, _ => false
